@@ -95,6 +95,7 @@ func rCases() []rCase {
 		{"C11", m("t.txt", "{% import 'lib' as lib %}{{ lib.nope() }}", "lib", "{% macro m() %}{% endmacro %}"), "t.txt", nil, "", true},
 		// C12
 		{"C12", m("t.html", "{{ v }}{% if true %}{{ v }}{% endif %}{% for i in 1..1 %}{{ v }}{% endfor %}{% set c %}{{ v }}{% endset %}{{ c|raw }}"), "t.html", map[string]stick.Value{"v": "<&>"}, "&lt;&amp;&gt;&lt;&amp;&gt;&lt;&amp;&gt;&lt;&amp;&gt;", false},
+		{"C12", m("t.html", "{% for i in none %}x{% else %}{{ v }}{% endfor %}{% if false %}{% else %}{{ v }}{% endif %}{% filter upper %}{{ v }}{% endfilter %}{% macro m(a) %}{{ a }}{% endmacro %}{% set r = _self.m(v) %}{{ r|raw }}"), "t.html", map[string]stick.Value{"v": "<"}, "&lt;&lt;&LT;&lt;", false},
 		{"C12", m("noext", "{{ v }}"), "noext", map[string]stick.Value{"v": "<"}, "&lt;", false},
 		{"C12", m("t.unknown", "{{ v }}"), "t.unknown", map[string]stick.Value{"v": "<"}, "&lt;", false},
 		{"C12", m("t.txt", "{{ v }}"), "t.txt", map[string]stick.Value{"v": "<"}, "<", false},
@@ -128,6 +129,15 @@ func TestStickvcReplayRender(t *testing.T) {
 			t.Fail()
 		case !c.err && (err != nil || out != c.want):
 			fmt.Printf("REPLAY-FAIL class=render/%s templates=%q main=%s want=%q got=%q err=%v\n", c.prop, c.tpls, c.main, c.want, out, err)
+			t.Fail()
+		}
+	}
+	if prop == "C12" || prop == "all" {
+		env := New(nil)
+		var b bytes.Buffer
+		err := env.Execute("Hello {{ v }}. Bye", &b, map[string]stick.Value{"v": "<"})
+		if err != nil || b.String() != "Hello &lt;. Bye" {
+			fmt.Printf("REPLAY-FAIL class=render/C12 inline template %q with v=\"<\": got %q err=%v, want %q\n", "Hello {{ v }}. Bye", b.String(), err, "Hello &lt;. Bye")
 			t.Fail()
 		}
 	}
